@@ -280,6 +280,8 @@ package getoptions
 //@     decreases cOpt.MaxArgs - i
 //@     step max.take {C02,C04}: !$exit ==> iterator.idx == old_iter(iterator.idx) + 1 && i == old_iter(i) + 1
 //@       && !LooksLikeOption(args[iterator.idx]) && args[iterator.idx] != "--" && Accepts(cOpt.OptType, args[iterator.idx])
+//@     step max.tried {C02}: $returned ==> old_iter(iterator.idx) + 1 < len(args) && !LooksLikeOption(args[old_iter(iterator.idx) + 1])
+//@       && args[old_iter(iterator.idx) + 1] != "--" && Accepts(cOpt.OptType, args[old_iter(iterator.idx) + 1])
 //@     step max.saved {C02}: !$exit ==> Stored(cOpt, args[iterator.idx])
 //@     step max.stop {C02}: $exit && !$returned ==> iterator.idx == old_iter(iterator.idx)
 //@       && (old_iter(i) >= cOpt.MaxArgs || old_iter(iterator.idx) + 1 >= len(args) || LooksLikeOption(args[old_iter(iterator.idx) + 1])
